@@ -527,17 +527,268 @@ theorem matches_spec (a : Expr) (ha : a.wf ctx = true) (ps : List MPat) (e : Exp
           | true => exact absurd (List.any_eq_true.mpr ⟨m, hm, hv⟩) hany'
         rw [h3, hf]; simp
 
+/-! ### Integer subscripts and stepped slices -/
+
+include hok in
+theorem index_spec (a : Expr) (ha : a.wf ctx = true) (i : Int) (e : Expr) (h : mkIndex ctx a i = some e) :
+    e.wf ctx = true ∧
+    derived (.index i) [(shapeOf ctx a, denote ctx env a)] = some (shapeOf ctx e, denote ctx env e) := by
+  unfold mkIndex at h
+  unfold widthOf at h
+  simp only at h
+  split at h
+  · rename_i hr
+    simp only [Option.some.injEq] at h
+    have hk : (if i < 0 then i + ↑(shapeOf ctx a).width else i).toNat < (shapeOf ctx a).width := by split <;> omega
+    simp only [derived, hr, and_self, if_true]
+    generalize (if i < 0 then i + ↑(shapeOf ctx a).width else i).toNat = k at h hk ⊢
+    subst h
+    have hk' : k < widthOf ctx a := hk
+    refine ⟨by simp [Expr.wf, ha]; omega, ?_⟩
+    simp only [shapeOf, denote, ubits, Nat.add_sub_cancel_left]
+  · cases h
+
+/-- `Σ_{j<n} f j · 2^j` -/
+def bitSum (f : Nat → Int) (n : Nat) : Int := (List.range n).foldl (fun acc j => acc + f j * 2 ^ j) 0
+
+theorem bitSum_succ_end (f : Nat → Int) (n : Nat) : bitSum f (n + 1) = bitSum f n + f n * 2 ^ n := by
+  simp [bitSum, List.range_succ, List.foldl_append]
+
+theorem bitSum_succ_front (f : Nat → Int) (n : Nat) : bitSum f (n + 1) = f 0 + 2 * bitSum (fun j => f (j + 1)) n := by
+  induction n with
+  | zero => simp [bitSum, List.range_succ, List.range_zero]
+  | succ n ih =>
+    rw [bitSum_succ_end, ih, bitSum_succ_end (fun j => f (j + 1)), Int.mul_add, two_pow_succ' n]
+    have : 2 * (f (n + 1) * 2 ^ n) = f (n + 1) * (2 * 2 ^ n) := by
+      rw [← Int.mul_assoc, Int.mul_comm 2, Int.mul_assoc]
+    rw [this]; omega
+
+/-- the low `n` bits of a value, bit by bit -/
+theorem emod_two_pow_bits (y : Int) (n : Nat) : y % 2 ^ n = bitSum (fun j => y / 2 ^ j % 2) n := by
+  induction n generalizing y with
+  | zero => simp [bitSum, Int.emod_one]
+  | succ n ih =>
+    rw [bitSum_succ_front]
+    simp only [Int.pow_zero, Int.ediv_one]
+    have hshift : (fun j => y / 2 ^ (j + 1) % 2) = (fun j => y / 2 / 2 ^ j % 2) := by
+      funext j
+      rw [two_pow_succ', Int.ediv_ediv_of_nonneg (by decide)]
+    rw [hshift, ← ih (y / 2), two_pow_succ']
+    have h1 := emod_mul_ediv y 2 (2 ^ n) (by decide) (two_pow_pos' n)
+    have h2 : y % (2 * 2 ^ n) % 2 = y % 2 := Int.emod_emod_of_dvd y (Int.dvd_mul_right _ _)
+    have h3 := Int.emod_add_mul_ediv (y % (2 * 2 ^ n)) 2
+    omega
+
+/-- the value of `Cat(a[p] for p in ps)`: bit `j` is bit `ps[j]` of `a` -/
+def posSum (x : Int) : List Nat → Int
+  | [] => 0
+  | p :: ps => x / 2 ^ p % 2 + 2 * posSum x ps
+
+include hok in
+theorem catBits_spec (a : Expr) (ha : a.wf ctx = true) : ∀ (ps : List Nat), (∀ p ∈ ps, p < widthOf ctx a) →
+    (catList (ps.map fun p => Expr.slice a p (p + 1))).wf ctx = true ∧
+    shapeOf ctx (catList (ps.map fun p => Expr.slice a p (p + 1))) = ⟨ps.length, false⟩ ∧
+    denote ctx env (catList (ps.map fun p => Expr.slice a p (p + 1))) = posSum (denote ctx env a) ps := by
+  intro ps
+  induction ps with
+  | nil => intro _; exact ⟨nil_wf ctx, by simp [catList, Expr.nil, shapeOf, Shape.u], by simp [catList, Expr.nil, denote, posSum]⟩
+  | cons p ps ih =>
+    intro h
+    obtain ⟨h1, h2, h3⟩ := ih (fun q hq => h q (List.mem_cons_of_mem _ hq))
+    have hp := h p (List.mem_cons_self ..)
+    have sr := (sound ctx env hok _ h1).rng
+    rw [h2, Shape.contains_u] at sr
+    refine ⟨by simp [catList, Expr.wf, ha, h1]; omega, by simp [catList, shapeOf, h2]; omega, ?_⟩
+    simp only [List.map_cons, catList, denote, posSum, widthOf, shapeOf, h2]
+    rw [Int.emod_eq_of_lt sr.1 sr.2, h3]
+    have : p + 1 - p = 1 := by omega
+    rw [this, emod_emod_pow]; simp
+
+theorem posSum_range (x : Int) (pos : Nat → Nat) (n : Nat) :
+    posSum x ((List.range n).map pos) = bitSum (fun j => x / 2 ^ pos j % 2) n := by
+  induction n generalizing pos with
+  | zero => simp [posSum, bitSum]
+  | succ n ih =>
+    rw [List.range_succ_eq_map, List.map_cons, List.map_map, bitSum_succ_front]
+    simp only [posSum]
+    rw [show (pos ∘ Nat.succ) = (fun j => pos (j + 1)) from rfl, ih]
+
+include hok in
+theorem sliceStep_spec (a : Expr) (ha : a.wf ctx = true) (start stop step : Int) (e : Expr)
+    (h : mkSliceStep ctx a start stop step = some e) :
+    e.wf ctx = true ∧
+    derived (.sliceStep start stop step) [(shapeOf ctx a, denote ctx env a)] = some (shapeOf ctx e, denote ctx env e) := by
+  unfold mkSliceStep at h
+  simp only at h
+  by_cases h0 : step = 0
+  · simp [h0] at h
+  · simp only [h0, if_false] at h
+    by_cases h1 : step = 1
+    · subst h1
+      simp only [if_true] at h
+      split at h
+      · rename_i hr
+        simp only [Option.some.injEq] at h; subst h
+        refine ⟨by simp [Expr.wf, ha, widthOf] at hr ⊢; omega, ?_⟩
+        simp only [derived, Int.reduceEq, if_false, shapeOf, denote, ubits]
+        have hn : (if (1 : Int) > 0 then (if stop > start then ((stop - start + 1 - 1) / 1).toNat else 0)
+            else (if start > stop then ((start - stop + (-1) - 1) / (-1)).toNat else 0)) = stop.toNat - start.toNat := by
+          simp only [show (1 : Int) > 0 by decide, if_true, Int.ediv_one]
+          split <;> omega
+        rw [hn]
+        congr 2
+        rw [emod_two_pow_bits]
+        unfold bitSum
+        congr 1
+        funext acc j
+        simp only
+        have e1 : (start + ↑j * 1).toNat = start.toNat + j := by omega
+        rw [e1, two_pow_add', ← Int.ediv_ediv_of_nonneg (Int.le_of_lt (two_pow_pos' _))]
+        simp
+      · cases h
+    · simp only [h1, if_false] at h
+      split at h
+      · rename_i hall
+        simp only [Option.some.injEq] at h; subst h
+        simp only [List.all_eq_true, Bool.and_eq_true, decide_eq_true_eq, slicePositions, List.mem_map, List.mem_range,
+          forall_exists_index, and_imp, forall_apply_eq_imp_iff₂] at hall
+        set n := sliceLen start stop step with hn
+        have hmap : (slicePositions start stop step).map (fun p => Expr.slice a p.toNat (p.toNat + 1)) =
+            ((List.range n).map fun (j : Nat) => (start + (j : Int) * step).toNat).map (fun p => Expr.slice a p (p + 1)) := by
+          simp [slicePositions, List.map_map, Function.comp_def, hn]
+        rw [hmap]
+        obtain ⟨c1, c2, c3⟩ := catBits_spec ctx env hok a ha ((List.range n).map fun (j : Nat) => (start + (j : Int) * step).toNat)
+          (by
+            intro p hp
+            simp only [List.mem_map, List.mem_range] at hp
+            obtain ⟨j, hj, rfl⟩ := hp
+            have := hall j hj
+            unfold widthOf at *; omega)
+        refine ⟨c1, ?_⟩
+        simp only [derived, h0, if_false]
+        rw [c2, c3, posSum_range, List.length_map, List.length_range]
+        have hn' : (if step > 0 then (if stop > start then ((stop - start + step - 1) / step).toNat else 0)
+            else (if start > stop then ((start - stop + (-step) - 1) / (-step)).toNat else 0)) = n := by
+          rw [hn]; rfl
+        rw [hn']
+        rfl
+      · cases h
+
 theorem Shape.unify_comm (a b : Shape) : Shape.unify a b = Shape.unify b a := by
   obtain ⟨wa, sa⟩ := a; obtain ⟨wb, sb⟩ := b
   cases sa <;> cases sb <;> simp [Shape.unify, Nat.max_comm]
+
+/-! ### `Array(elems)[index]` -/
+
+theorem Shape.unify_assoc (a b c : Shape) : Shape.unify (Shape.unify a b) c = Shape.unify a (Shape.unify b c) := by
+  obtain ⟨wa, sa⟩ := a; obtain ⟨wb, sb⟩ := b; obtain ⟨wc, sc⟩ := c
+  cases sa <;> cases sb <;> cases sc <;> simp [Shape.unify] <;> omega
+
+theorem nilShape_WF : (Shape.mk 0 false).WF := by intro h; cases h
+
+theorem Shape.nil_unify (s : Shape) (h : s.WF) : Shape.unify ⟨0, false⟩ s = s := by
+  rw [Shape.unify_comm]; exact Shape.unify_nil s h
+
+theorem foldr_unify_WF (l : List Shape) (hl : ∀ s ∈ l, s.WF) : (l.foldr Shape.unify ⟨0, false⟩).WF := by
+  induction l with
+  | nil => exact nilShape_WF
+  | cons s l ih =>
+    simp only [List.foldr_cons]
+    exact Shape.unify_WF _ _ (hl s (List.mem_cons_self ..)) (ih (fun x hx => hl x (List.mem_cons_of_mem _ hx)))
+
+/-- the left fold the Spec uses and the right-nested unification of the `SwitchValue` chain agree -/
+theorem foldl_unify (l : List Shape) (hl : ∀ s ∈ l, s.WF) (z : Shape) (hz : z.WF) :
+    l.foldl Shape.unify z = Shape.unify z (l.foldr Shape.unify ⟨0, false⟩) := by
+  induction l generalizing z with
+  | nil => simp only [List.foldl_nil, List.foldr_nil]; exact (Shape.unify_nil z hz).symm
+  | cons s l ih =>
+    have hs := hl s (List.mem_cons_self ..)
+    simp only [List.foldl_cons, List.foldr_cons]
+    rw [ih (fun x hx => hl x (List.mem_cons_of_mem _ hx)) _ (Shape.unify_WF z s hz hs), Shape.unify_assoc]
+
+theorem arrayFrom_isSwTail (idx : Expr) (k : Nat) (es : List Expr) : (mkArrayFrom ctx idx k es).isSwTail = true := by
+  cases es <;> simp [mkArrayFrom, Expr.isSwTail, Expr.nil, Shape.u]
+
+include hok in
+theorem arrayFrom_spec (idx : Expr) (hidx : idx.wf ctx = true) (h0 : 0 ≤ denote ctx env idx) :
+    ∀ (es : List Expr) (k : Nat), (∀ e ∈ es, e.wf ctx = true) → k + es.length ≤ 2 ^ widthOf ctx idx →
+    (mkArrayFrom ctx idx k es).wf ctx = true ∧
+    shapeOf ctx (mkArrayFrom ctx idx k es) = (es.map (shapeOf ctx)).foldr Shape.unify ⟨0, false⟩ ∧
+    denote ctx env (mkArrayFrom ctx idx k es) =
+      if k ≤ (denote ctx env idx).toNat then (es.map (denote ctx env)).getD ((denote ctx env idx).toNat - k) 0 else 0 := by
+  have hr := (sound ctx env hok idx hidx).rng
+  have hlt : denote ctx env idx < 2 ^ widthOf ctx idx := by
+    unfold widthOf
+    generalize shapeOf ctx idx = sh at hr
+    obtain ⟨w, sg⟩ := sh
+    cases sg
+    · rw [Shape.contains_u] at hr; exact hr.2
+    · rw [Shape.contains_s] at hr
+      exact Int.lt_of_lt_of_le hr.2 (two_pow_mono (by simp))
+  intro es
+  induction es with
+  | nil => intro k _ _; exact ⟨nil_wf ctx, by simp [mkArrayFrom, Expr.nil, shapeOf, Shape.u], by simp [mkArrayFrom, Expr.nil, denote]⟩
+  | cons e es ih =>
+    intro k hes hk
+    simp only [List.length_cons] at hk
+    obtain ⟨h1, h2, h3⟩ := ih (k + 1) (fun x hx => hes x (List.mem_cons_of_mem _ hx)) (by omega)
+    have he := hes e (List.mem_cons_self ..)
+    refine ⟨?_, ?_, ?_⟩
+    · simp [mkArrayFrom, Expr.wf, hidx, he, h1, arrayFrom_isSwTail, toBinary_length]
+    · simp only [mkArrayFrom, shapeOf, h2, List.map_cons, List.foldr_cons]
+    · simp only [mkArrayFrom, denote, List.any_cons, List.any_nil, Bool.or_false]
+      rw [matchesSpec_toBinary k _ (by omega), Int.emod_eq_of_lt h0 hlt, h3]
+      by_cases hk' : denote ctx env idx = (k : Int)
+      · have : (denote ctx env idx).toNat = k := by omega
+        simp [hk', this]
+      · simp only [hk', decide_false, Bool.false_eq_true, if_false]
+        by_cases hle : k + 1 ≤ (denote ctx env idx).toNat
+        · have : k ≤ (denote ctx env idx).toNat := by omega
+          simp only [hle, this, if_true, List.map_cons]
+          have e1 : (denote ctx env idx).toNat - k = ((denote ctx env idx).toNat - (k + 1)) + 1 := by omega
+          rw [e1, List.getD_cons_succ]
+        · have : ¬ k ≤ (denote ctx env idx).toNat := by omega
+          simp [hle, this]
+
+include hok in
+/-- `Array(elems)[index]` with an index value inside the (reachable part of the) array: the value of the selected
+element, in the unification of the reachable elements' shapes. (For an index outside the array the Spec says nothing.) -/
+theorem array_spec (idx : Expr) (elems : List Expr) (hidx : idx.wf ctx = true) (hel : ∀ e ∈ elems, e.wf ctx = true)
+    (h0 : 0 ≤ denote ctx env idx)
+    (hin : (denote ctx env idx).toNat < (elems.take (2 ^ widthOf ctx idx)).length) :
+    (mkArray ctx idx elems).wf ctx = true ∧
+    derived .arrayIndex ((idx :: elems).map fun a => (shapeOf ctx a, denote ctx env a)) =
+      some (shapeOf ctx (mkArray ctx idx elems), denote ctx env (mkArray ctx idx elems)) := by
+  set es := elems.take (2 ^ widthOf ctx idx) with hes
+  have hes_wf : ∀ e ∈ es, e.wf ctx = true := fun e he => hel e (List.mem_of_mem_take he)
+  obtain ⟨h1, h2, h3⟩ := arrayFrom_spec ctx env hok idx hidx h0 es 0 hes_wf
+    (by rw [Nat.zero_add, hes, List.length_take]; exact Nat.min_le_left _ _)
+  unfold mkArray
+  rw [← hes]
+  refine ⟨h1, ?_⟩
+  simp only [List.map_cons, derived]
+  rw [show (shapeOf ctx idx).width = widthOf ctx idx from rfl, ← List.map_take, ← hes]
+  simp only [List.length_map, h0, hin, and_self, if_true]
+  congr 2
+  · rw [h2]
+    have hsw : ∀ s ∈ es.map (shapeOf ctx), s.WF := by
+      intro s hs; obtain ⟨e, he, rfl⟩ := List.mem_map.mp hs; exact (sound ctx env hok e (hes_wf e he)).swf
+    have := foldl_unify (es.map (shapeOf ctx)) hsw ⟨0, false⟩ nilShape_WF
+    rw [Shape.nil_unify _ (foldr_unify_WF _ hsw)] at this
+    rw [← this]
+    simp only [List.foldl_map]
+  · rw [h3]
+    simp only [Nat.zero_le, if_true, Nat.sub_zero]
+    rw [List.getD_eq_getElem?_getD, List.getD_eq_getElem?_getD, List.getElem?_map, List.getElem?_map]
+    cases es[(denote ctx env idx).toNat]? <;> rfl
 
 include hok in
 /-- **The derived operators mean what Python means by them.** Whatever nodes `mkDerived` builds for a derived
 operator (compared structurally with what the Python methods build, on every run) are well formed, and their
 shape and exact value are the ones `Spec.derived` gives from the operands' shapes and exact values — for every
 operand expression, every integer amount and every environment. -/
-theorem derived_build_spec (op : DOp) (args : List Expr) (e : Expr) (h : mkDerived ctx op args = some e)
-    (hwf : ∀ a ∈ args, a.wf ctx = true) :
+theorem derived_build_spec (op : DOp) (hop : op ≠ .arrayIndex) (args : List Expr) (e : Expr)
+    (h : mkDerived ctx op args = some e) (hwf : ∀ a ∈ args, a.wf ctx = true) :
     e.wf ctx = true ∧
     derived op (args.map fun a => (shapeOf ctx a, denote ctx env a)) = some (shapeOf ctx e, denote ctx env e) := by
   have shl := fun a ha n => shift_left_spec ctx env hok a ha n
@@ -626,6 +877,21 @@ theorem derived_build_spec (op : DOp) (args : List Expr) (e : Expr) (h : mkDeriv
       exact ⟨h1, by simp only [List.map, derived]; exact congrArg some (Prod.ext h2.symm h3.symm)⟩
     | [], h, _ => simp [mkDerived] at h
     | _ :: _ :: _, h, _ => simp [mkDerived] at h
+  case index i =>
+    match args, h, hwf with
+    | [a], h, hwf =>
+      simp only [mkDerived] at h
+      exact index_spec ctx env hok a (hwf a (by simp)) i e h
+    | [], h, _ => simp [mkDerived] at h
+    | _ :: _ :: _, h, _ => simp [mkDerived] at h
+  case sliceStep start stop step =>
+    match args, h, hwf with
+    | [a], h, hwf =>
+      simp only [mkDerived] at h
+      exact sliceStep_spec ctx env hok a (hwf a (by simp)) start stop step e h
+    | [], h, _ => simp [mkDerived] at h
+    | _ :: _ :: _, h, _ => simp [mkDerived] at h
+  case arrayIndex => exact absurd rfl hop
   all_goals (exfalso; revert h; cases args <;> simp [mkDerived])
 
 end
